@@ -10,7 +10,7 @@ WT=/tmp/sv/${ID}_$N; LOG=/tmp/sv/${ID}_$N.log
 mkdir -p /tmp/sv; rm -rf $WT; git -C /repo worktree prune
 git -C /repo worktree add --detach $WT HEAD -q || exit 9
 : > $LOG
-for f in $OUT/demo$N/*; do [ -f "$f" ] && case "$f" in *.go) cp "$f" $WT/$DEMODIR/;; esac; done
+mkdir -p $WT/$DEMODIR; for f in $OUT/demo$N/*; do [ -f "$f" ] && case "$f" in *.go) cp "$f" $WT/$DEMODIR/;; esac; done
 ( cd $WT && go test -vet=off -count=1 ./$DEMODIR ) >> $LOG 2>&1; CLEAN=$?
 ( cd $WT && git apply $PATCH ) >> $LOG 2>&1 || { echo "$ID/$N: PATCH DOES NOT APPLY"; git -C /repo worktree remove --force $WT; exit 8; }
 ( cd $WT && go test -vet=off -count=1 ./$DEMODIR ) >> $LOG 2>&1; WITH=$?
